@@ -93,6 +93,32 @@ def obligations():
     return obs
 
 
+def rs_nonzero(chk):
+    """FIPS 186-4 6.4.2 step 1: r and s must both lie in [1, n-1].  decode_mod enforces < n; each decoded value must
+    additionally be zero-tested, and a positive test must force rejection."""
+    R = 'ecdsa-rs-nonzero'
+    for w in ('i15', 'i31'):
+        src = 'src/ec/ecdsa_%s_vrfy_raw.c' % w
+        fn = 'br_ecdsa_%s_vrfy_raw' % w
+        U = oblig.funit(src)
+        F = U.func(fn)
+        dec = F.calls('br_%s_decode_mod' % w)
+        if len(dec) != 2:
+            raise AnalysisBroken('%s: expected 2 decode_mod calls (r, s), found %d' % (fn, len(dec)))
+        zs = F.calls('br_%s_iszero' % w)
+        for name, d in zip(('r', 's'), dec):
+            base = F.addr_of(d['ops'][0])[0]
+            tests = [z for z in zs if F.addr_of(z['ops'][0])[0] == base and F.dominates(d['id'], z['id'])]
+            # the final comparison iszero(t1) is on another buffer; a test of this buffer right after decoding is what is required
+            inst = '%s: %s == 0 is tested and rejected' % (fn, name)
+            if not tests:
+                chk.violation(R, inst, F.where(d), 'the decoded %s is never tested for zero: a signature with %s = 0 is not rejected by a range check '
+                              '(replay: replays/ecdsa_r_zero.c)' % (name, name), key='%s %s %s' % (R, fn, name))
+                continue
+            k = zs.index(tests[0])
+            oblig.run_obligations(chk, [Ob(src, fn, Call('br_%s_iszero' % w, nth=k), ('pin', 1), RET(0), ('pin', 0), '%s = 0 must be rejected' % name, rule=R)])
+
+
 def run(tier):
     chk = report.Check('C11', tier,
                        'Static: (1) curve constants of every implementation (field primes, Montgomery constants R^2 and b*R in the i15/i31 word '
@@ -103,6 +129,7 @@ def run(tier):
                        trusted=['reference constants in sa/tab.py (self-checked: generators satisfy the curve equation)', 'clang/opt 14'])
     constants(chk)
     oblig.run_obligations(chk, obligations())
+    rs_nonzero(chk)
     conj = []
     for w in ('i15', 'i31'):
         conj.append(('src/ec/ec_prime_%s.c' % w, 'point_decode', 'r', 'and', 3, 'decode results, format byte and curve equation are conjuncts'))
